@@ -245,6 +245,56 @@ func init() {
 				cls := mkCls(info, errObj, nil, 0)
 				selected := fc.edgesEntailing(cls, goalSelected)
 				carved := fc.edgesEntailing(cls, goalCarved)
+				// the search over the bindings ends early only for a binding that matches: every way out of the
+				// loop that contains the dispatch (a return, a break) other than going on to the next binding
+				// lies behind an edge that selects the binding AND behind one that respects the carve-out.  A
+				// catch-all binding that may not handle a host panic is passed over like any other that does
+				// not match — a later binding naming the condition must still get its turn.
+				for _, p := range pushes {
+					if p.viaCall {
+						continue
+					}
+					loop := innermostLoopAround(fd.Body, p.call)
+					if loop == nil {
+						continue
+					}
+					var body *ast.BlockStmt
+					switch l := loop.(type) {
+					case *ast.RangeStmt:
+						body = l.Body
+					case *ast.ForStmt:
+						body = l.Body
+					}
+					inBody := func(n ast.Node) bool { return n.Pos() >= body.Pos() && n.End() <= body.End() }
+					xord := &ordinal{}
+					for _, b := range fc.G.Blocks {
+						if !fc.Live(b) || len(b.Nodes) == 0 || !inBody(b.Nodes[0]) {
+							continue
+						}
+						exit := ""
+						if _, ok := b.Nodes[len(b.Nodes)-1].(*ast.ReturnStmt); ok {
+							exit = "return"
+						}
+						for _, sc := range b.Succs {
+							if sc.Stmt == loop && (sc.Kind == cfg.KindRangeDone || sc.Kind == cfg.KindForDone) {
+								exit = "break"
+							}
+						}
+						if exit == "" || !fc.reachableFromAvoiding(start, b, nil) {
+							continue
+						}
+						construct := xord.next("selection loop exit (" + exit + ")")
+						last := b.Nodes[len(b.Nodes)-1]
+						switch {
+						case len(selected) == 0 || fc.reachableFromAvoiding(start, b, selected):
+							obs = append(obs, mkOb(c, "CARVE.handler-bind", u, construct, last, Violated, "the search over the bindings can end here for a binding whose specifier neither equals the condition name nor is `condition`: later bindings never get their turn", true))
+						case len(carved) == 0 || fc.reachableFromAvoiding(start, b, carved):
+							obs = append(obs, mkOb(c, "CARVE.handler-bind", u, construct, last, Violated, "the search over the bindings can end here at a catch-all binding that may not handle the host panic: a later binding that names the condition (internal-panic) never gets its turn", true))
+						default:
+							obs = append(obs, mkOb(c, "CARVE.handler-bind", u, construct, last, Proved, "the search ends here only for a binding that matches the condition (and respects the carve-out); every other binding is passed over", true))
+						}
+					}
+				}
 				for _, p := range pushes {
 					construct := "dispatch PushCondition"
 					if len(selected) == 0 || fc.reachableFromAvoiding(start, p.loc.B, selected) {
@@ -1043,4 +1093,30 @@ func (c *Ctx) directlyDeferred(u FuncUnit) map[*types.Func]bool {
 		return true
 	})
 	return out
+}
+
+// innermostLoopAround: the innermost for/range statement of body that encloses n (nil if none;
+// function literals are boundaries).
+func innermostLoopAround(body *ast.BlockStmt, n ast.Node) ast.Stmt {
+	var best ast.Stmt
+	ast.Inspect(body, func(m ast.Node) bool {
+		if m == nil {
+			return false
+		}
+		if m.Pos() > n.Pos() || m.End() < n.End() {
+			return false
+		}
+		switch x := m.(type) {
+		case *ast.FuncLit:
+			if x.Pos() <= n.Pos() && n.End() <= x.End() {
+				best = nil
+			}
+		case *ast.RangeStmt:
+			best = x
+		case *ast.ForStmt:
+			best = x
+		}
+		return true
+	})
+	return best
 }
